@@ -1176,6 +1176,110 @@ func ruleCaseFold(c *Ctx, rule string) {
 		}
 		return false
 	}
+	// the flow graph as it is when caseSensitive is false: an edge taken only when it is true does not exist
+	feasible := func(pred, succ *ssa.BasicBlock) bool {
+		ifi, ok := pred.Instrs[len(pred.Instrs)-1].(*ssa.If)
+		if !ok || len(pred.Succs) != 2 || pred.Succs[0] == pred.Succs[1] {
+			return true
+		}
+		if ifi.Cond == ssa.Value(csParam) && succ == pred.Succs[0] {
+			return false
+		}
+		if u, ok := ifi.Cond.(*ssa.UnOp); ok && u.Op == token.NOT && u.X == ssa.Value(csParam) && succ == pred.Succs[1] {
+			return false
+		}
+		return true
+	}
+	live := map[*ssa.BasicBlock]bool{}
+	{
+		work := []*ssa.BasicBlock{fn.Blocks[0]}
+		live[fn.Blocks[0]] = true
+		for len(work) > 0 {
+			b := work[0]
+			work = work[1:]
+			for _, sc := range b.Succs {
+				if feasible(b, sc) && !live[sc] {
+					live[sc] = true
+					work = append(work, sc)
+				}
+			}
+		}
+	}
+	// reachingStores: the stores to the named field of the alphabet whose value the load x can see when
+	// caseSensitive is false (backwards over feasible edges, stopping at the last store of each block)
+	reachingStores := func(x ssa.Instruction, name string) []*ssa.Store {
+		var out []*ssa.Store
+		lastStore := func(b *ssa.BasicBlock, before int) *ssa.Store {
+			for i := before - 1; i >= 0; i-- {
+				if st, ok := b.Instrs[i].(*ssa.Store); ok {
+					if n, ok := fieldOf(st.Addr, pkg, "alpha"); ok && n == name {
+						return st
+					}
+				}
+			}
+			return nil
+		}
+		if st := lastStore(x.Block(), instrIndex(x.Block(), x)); st != nil {
+			return []*ssa.Store{st}
+		}
+		seen := map[*ssa.BasicBlock]bool{}
+		var back func(b *ssa.BasicBlock)
+		back = func(b *ssa.BasicBlock) {
+			for _, pr := range b.Preds {
+				if !live[pr] || !feasible(pr, b) || seen[pr] {
+					continue
+				}
+				seen[pr] = true
+				if st := lastStore(pr, len(pr.Instrs)); st != nil {
+					out = append(out, st)
+					continue
+				}
+				back(pr)
+			}
+		}
+		back(x.Block())
+		return out
+	}
+	// feedsTable: the letter read from a string (directly, or by ranging over it) subscripts the valid or
+	// index table of the alphabet
+	feedsTable := func(ins ssa.Instruction) bool {
+		var vals []ssa.Value
+		if v, ok := ins.(ssa.Value); ok {
+			vals = append(vals, v)
+		}
+		seenV := map[ssa.Value]bool{}
+		for d := 0; d < 6 && len(vals) > 0; d++ {
+			var next []ssa.Value
+			for _, v := range vals {
+				if seenV[v] || v.Referrers() == nil {
+					continue
+				}
+				seenV[v] = true
+				for _, r := range *v.Referrers() {
+					switch y := r.(type) {
+					case *ssa.Next:
+						next = append(next, y)
+					case *ssa.Extract:
+						if y.Index == 2 {
+							next = append(next, y)
+						}
+					case *ssa.Convert:
+						next = append(next, y)
+					case *ssa.Phi:
+						next = append(next, y)
+					case *ssa.IndexAddr:
+						if y.Index == v {
+							if name, ok := fieldOf(y.X, pkg, "alpha"); ok && (name == "valid" || name == "index") {
+								return true
+							}
+						}
+					}
+				}
+			}
+			vals = next
+		}
+		return false
+	}
 	var origin func(v ssa.Value, at *ssa.BasicBlock, depth int) string // "folded", "raw", "other"
 	origin = func(v ssa.Value, at *ssa.BasicBlock, depth int) string {
 		if depth > 8 {
@@ -1206,43 +1310,18 @@ func ruleCaseFold(c *Ctx, rule string) {
 		case *ssa.UnOp:
 			if x.Op == token.MUL {
 				if name, ok := fieldOf(x.X, pkg, "alpha"); ok {
-					// nearest dominating store to that field
-					var best *ssa.Store
-					for _, bb := range fn.Blocks {
-						for _, ins := range bb.Instrs {
-							st, ok := ins.(*ssa.Store)
-							if !ok {
-								continue
-							}
-							if n, ok := fieldOf(st.Addr, pkg, "alpha"); ok && n == name && bb.Dominates(x.Block()) {
-								if best == nil || best.Block().Dominates(bb) {
-									best = st
-								}
-							}
-						}
-					}
-					if best != nil {
-						return origin(best.Val, at, depth+1)
-					}
-					// no single dominating store: every store that can reach the load, except those made
-					// where caseSensitive is known true, must agree
-					res, cnt := "folded", 0
-					for _, bb := range fn.Blocks {
-						for _, ins := range bb.Instrs {
-							st, ok := ins.(*ssa.Store)
-							if !ok {
-								continue
-							}
-							if n, ok := fieldOf(st.Addr, pkg, "alpha"); !ok || n != name || cased(bb) || !reachesInstr(st, x) {
-								continue
-							}
-							cnt++
-							if o := origin(st.Val, at, depth+1); o != "folded" {
+					// what the load sees when caseSensitive is false
+					stores := reachingStores(x, name)
+					if len(stores) > 0 {
+						res := "folded"
+						for _, st := range stores {
+							switch o := origin(st.Val, at, depth+1); {
+							case o == "raw":
+								res = "raw"
+							case o != "folded" && res != "raw":
 								res = o
 							}
 						}
-					}
-					if cnt > 0 {
 						return res
 					}
 				}
@@ -1279,10 +1358,13 @@ func ruleCaseFold(c *Ctx, rule string) {
 	}
 	n := 0
 	for _, b := range fn.Blocks {
-		if !uncased(b) {
+		if !live[b] {
 			continue
 		}
 		for _, ins := range b.Instrs {
+			if !uncased(b) && !feedsTable(ins) {
+				continue
+			}
 			var str ssa.Value
 			what := ""
 			switch x := ins.(type) {
@@ -1383,42 +1465,17 @@ func ruleCaseFold(c *Ctx, rule string) {
 				if name, ok := fieldOf(x.X, pkg, "alpha"); ok {
 					var res []string
 					cnt, all := 0, true
-					for _, bb := range fn.Blocks {
-						for _, ins := range bb.Instrs {
-							st, ok := ins.(*ssa.Store)
-							if !ok {
-								continue
-							}
-							if n, ok := fieldOf(st.Addr, pkg, "alpha"); !ok || n != name || cased(bb) || !reachesInstr(st, x) {
-								continue
-							}
-							// a store overwritten by a later one that dominates the load is not what is read
-							killed := false
-							for _, b2 := range fn.Blocks {
-								for _, i2 := range b2.Instrs {
-									s2, ok := i2.(*ssa.Store)
-									if !ok || s2 == st {
-										continue
-									}
-									if n2, ok := fieldOf(s2.Addr, pkg, "alpha"); ok && n2 == name && reachesInstr(st, s2) && !reachesInstr(s2, st) && (b2.Dominates(x.Block()) && (b2 != x.Block() || instrIndex(b2, s2) < instrIndex(b2, x))) {
-										killed = true
-									}
-								}
-							}
-							if killed {
-								continue
-							}
-							p, ok := parts(st.Val, depth+1)
-							if !ok {
-								all = false
-							}
-							if cnt == 0 {
-								res = p
-							} else if strings.Join(res, ",") != strings.Join(p, ",") {
-								all = false
-							}
-							cnt++
+					for _, st := range reachingStores(x, name) {
+						p, ok := parts(st.Val, depth+1)
+						if !ok {
+							all = false
 						}
+						if cnt == 0 {
+							res = p
+						} else if strings.Join(res, ",") != strings.Join(p, ",") {
+							all = false
+						}
+						cnt++
 					}
 					if cnt > 0 && all {
 						return res, true
@@ -1432,7 +1489,7 @@ func ruleCaseFold(c *Ctx, rule string) {
 	judged, opaque := 0, false
 	var firstRange token.Pos
 	for _, b := range fn.Blocks {
-		if cased(b) {
+		if !live[b] {
 			continue
 		}
 		for _, ins := range b.Instrs {
